@@ -172,7 +172,6 @@ pub fn model_can_encode(inl: &Desc, ty: &str) -> bool {
                 a.fields().iter().all(|f| match &f.kind {
                     FieldKind::Typedef { type_id, .. } => ok_type(d, type_id, depth + 1),
                     FieldKind::Array { elem: Elem::Type(t2), .. } => ok_type(d, t2, depth + 1),
-                    FieldKind::Array { shape: Shape::Modifier(_), .. } => false,
                     FieldKind::Checksum { .. } => false,
                     _ => true,
                 })
